@@ -168,10 +168,43 @@ def _npexp(e):
 CACHE_DECOS = ("lru_cache", "functools.cache", "cache", "cached_property", "memoize", "memoise")
 
 
+def closure_cache_decorators(prog, f):
+    """decorators of f that are package functions keeping a container in a closure and storing into it from the wrapper they
+    return (a hand-written memo): [(decorator text, container name)]"""
+    out = []
+    for d in getattr(f.node, "decorator_list", []):
+        head = d.func if isinstance(d, ast.Call) else d
+        try:
+            t = prog.resolve(f.module, head, f)
+        except Exception:
+            t = None
+        node = getattr(t, "node", None)
+        if not isinstance(node, (ast.FunctionDef, ast.AsyncFunctionDef)):
+            continue
+        containers = set()
+        for st in node.body:
+            if isinstance(st, ast.Assign) and isinstance(st.value, (ast.Dict, ast.List, ast.Set)) or (
+                    isinstance(st, ast.Assign) and isinstance(st.value, ast.Call) and isinstance(st.value.func, ast.Name)
+                    and st.value.func.id in ("dict", "list", "set", "OrderedDict", "defaultdict")):
+                containers.update(x.id for t_ in st.targets for x in ast.walk(t_) if isinstance(x, ast.Name))
+        for inner in [x for x in ast.walk(node) if isinstance(x, (ast.FunctionDef, ast.Lambda)) and x is not node]:
+            for x in ast.walk(inner):
+                tgt = None
+                if isinstance(x, ast.Subscript) and isinstance(x.ctx, ast.Store) and isinstance(x.value, ast.Name):
+                    tgt = x.value.id
+                elif isinstance(x, ast.Call) and isinstance(x.func, ast.Attribute) and x.func.attr in ("setdefault", "update", "append", "add") \
+                        and isinstance(x.func.value, ast.Name):
+                    tgt = x.func.value.id
+                if tgt in containers:
+                    out.append((astq.text(d), tgt))
+                    break
+    return out
+
+
 def fresh_and_pure(ctx, R, f, what):
     """The function returns storage created by the call and keeps no memo."""
     prog = ctx.prog
-    decos = [d for d in f.decorators if any(c in d for c in CACHE_DECOS)]
+    decos = [d for d in f.decorators if any(c in d for c in CACHE_DECOS)] + ["%s (keeps `%s` in a closure)" % dc for dc in closure_cache_decorators(prog, f)]
     ctx.check(not decos, R, f, f.node, "%s is not memoised" % what,
               "%s is wrapped by %s: every caller receives the same array object, so an in-place modification by one caller "
               "corrupts what later callers get" % (what, decos))
@@ -214,7 +247,7 @@ def no_shared_state(ctx, R, f, what, allow_self=False):
     class-level or module-level name, no memoised helper one call away.  Results that depend on such state depend on
     what was computed before (another rate, another configuration) - not on the arguments alone."""
     prog = ctx.prog
-    decos = [d for d in f.decorators if any(c in d for c in CACHE_DECOS)]
+    decos = [d for d in f.decorators if any(c in d for c in CACHE_DECOS)] + ["%s (keeps `%s` in a closure)" % dc for dc in closure_cache_decorators(prog, f)]
     ctx.check(not decos, R, f, f.node, "%s is not memoised" % what, "%s is wrapped by %s: its result is computed once per argument tuple and shared afterwards" % (what, decos))
     for c in astq.func_calls(f):
         t = prog.resolve(f.module, c.func, f)
